@@ -379,7 +379,7 @@ func (c15) Run(t *testing.T, cs Case, trace bool) *Outcome {
 			runStartLog = len(w.Log)
 			w.Start(s, ctx)
 		})
-		if r := s.Settle(2000000); r != simrt.Quiescent {
+		if r := s.Settle(1000000); r != simrt.Quiescent {
 			out.HarnessErr = fmt.Sprintf("C15 run did not become quiescent: %v live=%v", r, s.Live())
 			return
 		}
